@@ -1,6 +1,11 @@
 package main
 
-import "fmt"
+import (
+	"fmt"
+	"io"
+
+	"github.com/ulikunitz/lz"
+)
 
 type writerErr int
 
@@ -16,9 +21,26 @@ type scriptWriter struct {
 	// offered data and accepted nothing, and the longest such streak since
 	// the last resetStreak (one decoder operation).
 	idle, maxIdle int
+	// the error of the most recent call that failed, and its code (sentinel errors of the
+	// library itself have codes 7, 8, 9: a Decoder may write into a Parser or a bounded buffer)
+	lastErr  error
+	lastCode int
 }
 
-func (w *scriptWriter) resetStreak() { w.idle, w.maxIdle = 0, 0 }
+// errOfWriterCode maps a response code to the error the writer returns.
+func errOfWriterCode(c int) error {
+	switch c {
+	case 7:
+		return lz.ErrFullBuffer
+	case 8:
+		return io.ErrShortWrite
+	case 9:
+		return io.EOF
+	}
+	return writerErr(c)
+}
+
+func (w *scriptWriter) resetStreak() { w.idle, w.maxIdle = 0, 0; w.lastErr, w.lastCode = nil, 0 }
 
 func (w *scriptWriter) Write(p []byte) (n int, err error) {
 	w.calls++
@@ -44,7 +66,8 @@ func (w *scriptWriter) Write(p []byte) (n int, err error) {
 	}
 	w.got = append(w.got, p[:k]...)
 	if rs.err != 0 {
-		return k, writerErr(rs.err)
+		w.lastErr, w.lastCode = errOfWriterCode(rs.err), rs.err
+		return k, w.lastErr
 	}
 	return k, nil
 }
